@@ -43,7 +43,7 @@ func registerShadows() {
 var c11Receivers = map[model.Kind][]model.Value{
 	model.KStr: {
 		model.Str(""), model.Str("a"), model.Str("hello world"), model.Str("héllo"), model.Str("éa"), model.Str("中文字"), model.Str("a😀b"),
-		model.Str("éx"), model.Str("  pad\t\n"), model.Str("12"), model.Str("-7"), model.Str("a,b,,c"), model.Str("&lt;b&gt; &amp;"), model.Str("ßx"), model.Str("xx--xx"),
+		model.Str("éx"), model.Str("ılık"), model.Str("ſo"), model.Str("ɐb"), model.Str("ɐ"), model.Str("ⱥb"), model.Str("ǆx"), model.Str("  pad\t\n"), model.Str("12"), model.Str("-7"), model.Str("a,b,,c"), model.Str("&lt;b&gt; &amp;"), model.Str("ßx"), model.Str("xx--xx"),
 	},
 	model.KArr: {
 		model.Arr(), model.Arr(model.Int(1)), model.Arr(model.Int(1), model.Int(2), model.Int(3)), model.Arr(model.Str("b"), model.Str("a"), model.Str("c"), model.Str("a")),
@@ -286,6 +286,34 @@ func init() {
 						}
 						judgeCall(c, model.Str("15"), "decimal", []model.Value{model.Str(strs[i]), model.Int(n)})
 						judgeCall(c, model.Int(n), "decimal", []model.Value{model.Str(strs[i]), model.Int(n)})
+					}
+				}})
+			// contains is structural equality: values that print alike but differ in structure or kind
+			type cpair struct{ recv, arg model.Value }
+			i1, i2 := model.Int(1), model.Int(2)
+			cpairs := []cpair{
+				{model.Arr(model.Arr(i1, model.Arr(i2))), model.Arr(model.Arr(i1), i2)},
+				{model.Arr(model.Arr(model.Arr(i1, i2))), model.Arr(i1, i2)},
+				{model.Arr(model.Arr(model.Str("1, 2"))), model.Arr(i1, i2)},
+				{model.Arr(model.Arr(model.Str("1"))), model.Arr(i1)},
+				{model.Arr(model.Obj(map[string]model.Value{"a": i1})), model.Obj(map[string]model.Value{"a": model.Str("1")})},
+				{model.Arr(model.Obj(map[string]model.Value{"a": i1, "b": i2})), model.Obj(map[string]model.Value{"b": i2, "a": i1})},
+				{model.Arr(model.Arr(i1, i2), model.Arr()), model.Arr()},
+				{model.Arr(model.Arr(model.Nil)), model.Arr(model.Str(""))},
+				{model.Arr(model.Str("1"), model.Float(1), model.Bool(true)), i1},
+				{model.Arr(i1, model.Str("true")), model.Bool(true)},
+				{model.Arr(model.Str("")), model.Nil},
+				{model.Arr(model.Nil), model.Str("")},
+				{model.Arr(model.Float(2)), i2},
+				{model.Arr(model.Arr(i1, i2)), model.Arr(i2, i1)},
+				{model.Arr(model.Obj(map[string]model.Value{"a": model.Arr(i1)})), model.Obj(map[string]model.Value{"a": model.Arr(i1)})},
+			}
+			secs = append(secs, core.Section{Name: "contains-structural", Exhaustive: true, N: len(cpairs),
+				Run: func(c *core.Ctx, i int) {
+					judgeCall(c, cpairs[i].recv, "contains", []model.Value{cpairs[i].arg})
+					// and the other way round where the argument is an array
+					if cpairs[i].arg.K == model.KArr {
+						judgeCall(c, model.Arr(cpairs[i].arg), "contains", []model.Value{cpairs[i].recv.A[0]})
 					}
 				}})
 			// call sequences: results must not share storage with the receiver or with each other
